@@ -211,7 +211,7 @@ def operand_cases(rng, n):
         c = {'x': fxm, 'cx': code(fxm), 'y': fym, 'cy': code(fym), 'op': rng.choice('+-*'), 'which': which, 'scale': str(scale), 'bias': str(bias), 'r': rng.choice(RMODES), 'o': rng.choice(OMODES)}
         if which == 'out':
             nwo = rng.choice([8, 12, 16]); c['out'] = [True, nwo, rng.choice([0, 2, nwo // 2])]
-            if rng.random() < 0.4: c['unary'] = rng.choice(['np.conjugate', 'sum_tuple', 'max_tuple', 'sum_plain'])
+            if rng.random() < 0.4: c['unary'] = rng.choice(['np.conjugate', 'sum_tuple', 'max_tuple', 'sum_plain', 'sum_initial'])
         cases.append(c)
     return cases
 
@@ -233,8 +233,9 @@ def run_operand(cases, res):
                 out = fx.Fxp(None, *c['out'], **skw); out.reset()    # (the initial value 0 is itself transformed and may leave the range: flags are sticky)
                 if c.get('unary'):
                     # a ONE-operand function storing x itself into the scaled target (out= as NumPy hands it over - a 1-tuple - or plain)
-                    e = xv
-                    z = {'np.conjugate': lambda: np.conjugate(x, out=out), 'sum_tuple': lambda: fx.sum(x, out=(out,)), 'max_tuple': lambda: fx.fxp_max(x, out=(out,)), 'sum_plain': lambda: fx.sum(x, out=out)}[c['unary']]()
+                    e = xv + (Fraction(3, 2) if c['unary'] == 'sum_initial' else 0)
+                    z = {'np.conjugate': lambda: np.conjugate(x, out=out), 'sum_tuple': lambda: fx.sum(x, out=(out,)), 'max_tuple': lambda: fx.fxp_max(x, out=(out,)), 'sum_plain': lambda: fx.sum(x, out=out),
+                         'sum_initial': lambda: fx.sum(x, initial=1.5, out=out)}[c['unary']]()      # (a start value counts by its value when the target is scaled)
                 else:
                     z = {'+': fx.add, '-': fx.sub, '*': fx.mul}[c['op']](x, y, out=out)
                 if z is not out:
